@@ -109,12 +109,11 @@ Definition ok_narrow_z (K : fld) : Prop :=
 Definition ok_pool2 (K : fld) : Prop :=
   (forall v00 v01 v02 v03 v10 v11 v12 v13 : K, gen_io_data_pool2 [[v00; v01; v02; v03]; [v10; v11; v12; v13]] = to_nested2 (d_pool 2 [2; 2]%Z false (of_nested2 [[v00; v01; v02; v03]; [v10; v11; v12; v13]]))) /\
   gen_io_n_pool2 (K:=K) = map of_Z gen_io_shape_pool2.
-(* FAITHFUL to a defect of the unchanged code: a tuple kernel_size reaches F.avg_pool2d in TENSOR order (.., Y, X) but
-   Grid.pool in GRID order (X, Y, ..): for kernel_size = (2, 3) on a 6 x 4 image the data is pooled by 3 along x and 2
-   along y (shape 2 x 2) while the returned grid has size 3 x 1 *)
+(* a tuple kernel_size is in grid order (X, Y, ..) for both the data and the grid path: kernel_size = (2, 3) on a 6 x 4 image pools
+   by 2 along x and 3 along y; data shape = grid size = 3 x 1 *)
 Definition ok_pool_aniso (K : fld) : Prop :=
-  (forall v00 v01 v02 v03 v04 v05 v10 v11 v12 v13 v14 v15 v20 v21 v22 v23 v24 v25 v30 v31 v32 v33 v34 v35 : K, gen_io_data_pool_aniso [[v00; v01; v02; v03; v04; v05]; [v10; v11; v12; v13; v14; v15]; [v20; v21; v22; v23; v24; v25]; [v30; v31; v32; v33; v34; v35]] = to_nested2 (d_pool 2 [3; 2]%Z false (of_nested2 [[v00; v01; v02; v03; v04; v05]; [v10; v11; v12; v13; v14; v15]; [v20; v21; v22; v23; v24; v25]; [v30; v31; v32; v33; v34; v35]]))) /\
-  gen_io_shape_pool_aniso = [2; 2]%Z /\ gen_io_n_pool_aniso (K:=K) = [of_Z 3; of_Z 1].
+  (forall v00 v01 v02 v03 v04 v05 v10 v11 v12 v13 v14 v15 v20 v21 v22 v23 v24 v25 v30 v31 v32 v33 v34 v35 : K, gen_io_data_pool_aniso [[v00; v01; v02; v03; v04; v05]; [v10; v11; v12; v13; v14; v15]; [v20; v21; v22; v23; v24; v25]; [v30; v31; v32; v33; v34; v35]] = to_nested2 (d_pool 2 [2; 3]%Z false (of_nested2 [[v00; v01; v02; v03; v04; v05]; [v10; v11; v12; v13; v14; v15]; [v20; v21; v22; v23; v24; v25]; [v30; v31; v32; v33; v34; v35]]))) /\
+  gen_io_n_pool_aniso (K:=K) = map of_Z gen_io_shape_pool_aniso /\ gen_io_shape_pool_aniso = [3; 1]%Z.
 Definition ok_resize_default (K : fld) : Prop :=
   forall (s c : nat -> K) (d : nat -> nat -> K),
   interp_ok 2 gen_io_interp_resize_default (gen_io_s_resize_default (vtab 2 s) (vtab 2 c) (tab 2 2 d)) (gen_io_c_resize_default (vtab 2 s) (vtab 2 c) (tab 2 2 d)) (vtab 2 s) (vtab 2 c) (tab 2 2 d).
@@ -169,8 +168,15 @@ Definition ok_down_neg_nac (K : fld) : Prop :=
 Definition ok_down_neg_flag (K : fld) : Prop :=
   forall (s c : nat -> K) (d : nat -> nat -> K),
   interp_ok 2 gen_io_interp_down_neg_flag (gen_io_s_down_neg_flag (vtab 2 s) (vtab 2 c) (tab 2 2 d)) (gen_io_c_down_neg_flag (vtab 2 s) (vtab 2 c) (tab 2 2 d)) (vtab 2 s) (vtab 2 c) (tab 2 2 d).
+(* upsample of an image whose grid has a fractional size attribute (2.5 -> 5 samples): F.interpolate gets the GRID's new size *)
+Definition ok_up_fractional (K : fld) : Prop :=
+  forall (s c : nat -> K) (d : nat -> nat -> K),
+  interp_ok 2 gen_io_interp_up_fractional (gen_io_s_up_fractional (vtab 2 s) (vtab 2 c) (tab 2 2 d)) (gen_io_c_up_fractional (vtab 2 s) (vtab 2 c) (tab 2 2 d)) (vtab 2 s) (vtab 2 c) (tab 2 2 d).
+Definition ok_up_fractional_nac (K : fld) : Prop :=
+  forall (s c : nat -> K) (d : nat -> nat -> K),
+  interp_ok 2 gen_io_interp_up_fractional_nac (gen_io_s_up_fractional_nac (vtab 2 s) (vtab 2 c) (tab 2 2 d)) (gen_io_c_up_fractional_nac (vtab 2 s) (vtab 2 c) (tab 2 2 d)) (vtab 2 s) (vtab 2 c) (tab 2 2 d).
 Definition traced_index_ops_ok (K : fld) : Prop :=
-  ok_down_neg_nac K /\ ok_down_neg_flag K /\ ok_roi2 K /\ ok_roi2_pad K /\ ok_conv2 K /\
+  ok_up_fractional K /\ ok_up_fractional_nac K /\ ok_down_neg_nac K /\ ok_down_neg_flag K /\ ok_roi2 K /\ ok_roi2_pad K /\ ok_conv2 K /\
   ok_crop_num K /\
   ok_crop_margin K /\
   ok_crop_mixed K /\
